@@ -2,7 +2,7 @@
 Require Import List NArith Bool PeanoNat Lia ZifyBool ZifyN.
 Require Import KV.Parser.Utf8 KV.Parser.Unicode KV.Parser.Keywords KV.Parser.Scanners KV.Parser.Grammar.
 Require Import KV.Parser.Utf8Proofs KV.Parser.ScannerProofs KV.Parser.GrammarProofs.
-Require Import KV.Parser.RoundTrip KV.Parser.RoundTrip2 KV.Parser.RoundTrip3 KV.Parser.Lex KV.Parser.StmtRT KV.Parser.FilterRT KV.Parser.FilterRT2 KV.Parser.SelectRT KV.Parser.GroupRT.
+Require Import KV.Parser.RoundTrip KV.Parser.RoundTrip2 KV.Parser.RoundTrip3 KV.Parser.Lex KV.Parser.StmtRT KV.Parser.FilterRT KV.Parser.FilterRT2 KV.Parser.SelectRT KV.Parser.GroupRT KV.Parser.PrologueRT.
 Import ListNotations.
 Open Scope N_scope.
 
@@ -54,29 +54,64 @@ Proof.
   destruct (valid_split_ascii _ _ _ VQ Hb) as (_ & Vb & _). now destruct (valid_ascii_head _ _ Vb Hb) as (_ & _ & ?).
 Qed.
 
-Theorem query_roundtrip : forall q e fuel, (sz_sel q <= fuel)%nat -> wf_sel q true (pr_end e) = true -> wf_end e = true ->
-  parse_sparql_query fuel (pr_sel q ++ pr_end e) = Ok (tr_sel q).
+(* ---- the prologue ------------------------------------------------------------------------------------------------------------ *)
+Definition pr_prologue (ps : list PrefixC) : str := flat_map pr_prefix ps.
+Definition tr_prologue (ps : list PrefixC) (m : list (str * str)) : list (str * str) :=
+  fold_left (fun m c => map_insert (encode (px_p c)) (iri_body (px_iri c)) m) ps m.
+Lemma prologue_valid : forall ps, forallb wf_prefix ps = true -> Valid (pr_prologue ps).
 Proof.
-  intros q e fuel Hf H He. destruct (end_facts e He) as [Ee Ve].
-  pose proof (proj2 (proj2 (proj2 (proj2 (proj2 group_rt)))) q fuel true _ Hf H Ve) as Sq.
-  destruct (sel_head_letter q true _ H Ve) as (b & t & Esk & Hlow).
-  unfold parse_sparql_query, sparql_prefixes. cbn [prefixes_loop].
-  rewrite (starts_keyword_false _ _ (keyword_fail kw_prefix _ _ _ b t eq_refl Esk ltac:(rewrite Hlow; cbv; discriminate))). cbn [bind].
-  rewrite Sq. cbn [bind]. destruct q. now apply finish_rest.
+  induction ps as [|c t IH]; intros H; [apply valid_nil|]. cbn [forallb pr_prologue flat_map] in *. apply andb_true_iff in H. destruct H.
+  apply valid_app; [now apply prefix_valid|now apply IH].
+Qed.
+Lemma prologue_length : forall ps, forallb wf_prefix ps = true -> (length ps <= length (pr_prologue ps))%nat.
+Proof.
+  induction ps as [|c t IH]; intros H; [cbn; lia|]. cbn [forallb pr_prologue flat_map length] in *. apply andb_true_iff in H. destruct H as [H1 H2].
+  specialize (IH H2). rewrite app_length. fold (pr_prologue t).
+  assert (1 <= length (pr_prefix c))%nat by (unfold pr_prefix, px_iri_text; repeat first [rewrite app_length | progress cbn [length]]; lia). lia.
+Qed.
+Lemma prefixes_loop_rt : forall ps fuel m rest, (length ps < fuel)%nat -> forallb wf_prefix ps = true -> Valid rest -> is_err (keyword kw_prefix rest) ->
+  prefixes_loop fuel (pr_prologue ps ++ rest) m = Ok (tr_prologue ps m, rest).
+Proof.
+  induction ps as [|c t IH]; intros fuel m rest Hf H Hr He; (destruct fuel as [|f]; [cbn in Hf; lia|]); cbn [prefixes_loop].
+  - cbn [pr_prologue flat_map app tr_prologue fold_left]. now rewrite (starts_keyword_false _ _ He).
+  - cbn [forallb pr_prologue flat_map tr_prologue fold_left] in *. fold (pr_prologue t) in *. apply andb_true_iff in H. destruct H as [Hc Ht]. rewrite <- app_assoc.
+    assert (VT : Valid (pr_prologue t ++ rest)) by (apply valid_app; [now apply prologue_valid|assumption]).
+    pose proof (prefix_rt c _ Hc VT) as Pr.
+    assert (Kp : exists mm r, keyword kw_prefix (pr_prefix c ++ pr_prologue t ++ rest) = Ok (mm, r)).
+    { unfold prefix_declaration in Pr. destruct (keyword kw_prefix (pr_prefix c ++ pr_prologue t ++ rest)) as [[mm r]| | |]; try discriminate. eauto. }
+    destruct Kp as (mm & r & Kp). rewrite (starts_keyword_true _ _ _ _ Kp). cbn [bind]. rewrite Pr. cbn [bind fst snd].
+    apply IH; try assumption. cbn in Hf. lia.
 Qed.
 
-Theorem top_select_roundtrip : forall q e fuel aliases, (sz_sel q <= fuel)%nat -> wf_sel q true (pr_end e) = true -> wf_end e = true ->
-  parse_top fuel aliases (pr_sel q ++ pr_end e) = Ok (TSelect [] (tr_sel q)).
+Theorem query_roundtrip : forall ps q e fuel, (sz_sel q <= fuel)%nat -> forallb wf_prefix ps = true -> wf_sel q true (pr_end e) = true -> wf_end e = true ->
+  parse_sparql_query fuel (pr_prologue ps ++ pr_sel q ++ pr_end e) = Ok (tr_sel q).
 Proof.
-  intros q e fuel aliases Hf H He. destruct (end_facts e He) as [Ee Ve].
+  intros ps q e fuel Hf Hps H He. destruct (end_facts e He) as [Ee Ve].
+  assert (VQ : Valid (pr_sel q ++ pr_end e)) by (apply valid_app; [eapply sel_valid; eexists; eassumption|assumption]).
+  pose proof (proj2 (proj2 (proj2 (proj2 (proj2 group_rt)))) q fuel true _ Hf H Ve) as Sq.
+  destruct (sel_head_letter q true _ H Ve) as (b & t & Esk & Hlow).
+  unfold parse_sparql_query, sparql_prefixes.
+  rewrite (prefixes_loop_rt ps _ [] _); try assumption.
+  - cbn [bind]. rewrite Sq. cbn [bind]. destruct q. now apply finish_rest.
+  - rewrite app_length. pose proof (prologue_length ps Hps). lia.
+  - apply (keyword_fail kw_prefix _ _ _ b t eq_refl Esk). rewrite Hlow. cbv. discriminate.
+Qed.
+
+Theorem top_select_roundtrip : forall ps q e fuel aliases, (sz_sel q <= fuel)%nat -> forallb wf_prefix ps = true -> wf_sel q true (pr_end e) = true -> wf_end e = true ->
+  parse_top fuel aliases (pr_prologue ps ++ pr_sel q ++ pr_end e) = Ok (TSelect (tr_prologue ps []) (tr_sel q)).
+Proof.
+  intros ps q e fuel aliases Hf Hps H He. destruct (end_facts e He) as [Ee Ve].
   assert (VQ : Valid (pr_sel q ++ pr_end e)) by (apply valid_app; [eapply sel_valid; eexists; eassumption|assumption]).
   pose proof (proj2 (proj2 (proj2 (proj2 (proj2 group_rt)))) q fuel true _ Hf H Ve) as Sq.
   destruct (sel_head_letter q true _ H Ve) as (b & t & Esk & Hlow).
   destruct (sel_keyword q true _ H Ve) as (m & r & Ks).
-  unfold parse_top, sparql_prefixes. cbn [prefixes_loop].
-  rewrite (starts_keyword_false _ _ (keyword_fail kw_prefix _ _ _ b t eq_refl Esk ltac:(rewrite Hlow; cbv; discriminate))). cbn [bind].
-  assert (Ks' : starts_keyword kw_select (skip_ws (pr_sel q ++ pr_end e)) = Ok true).
-  { rewrite starts_keyword_skip by assumption. eapply starts_keyword_true; eassumption. }
-  rewrite select_core_skip by assumption. rewrite Esk in *. rewrite Ks'. cbn [bind]. rewrite Sq. cbn [bind].
-  destruct q. now apply finish_rest.
+  unfold parse_top, sparql_prefixes.
+  rewrite (prefixes_loop_rt ps _ [] _); try assumption.
+  - cbn [bind].
+    assert (Ks' : starts_keyword kw_select (skip_ws (pr_sel q ++ pr_end e)) = Ok true).
+    { rewrite starts_keyword_skip by assumption. eapply starts_keyword_true; eassumption. }
+    rewrite select_core_skip by assumption. rewrite Esk in *. rewrite Ks'. cbn [bind]. rewrite Sq. cbn [bind].
+    destruct q. now apply finish_rest.
+  - rewrite app_length. pose proof (prologue_length ps Hps). lia.
+  - apply (keyword_fail kw_prefix _ _ _ b t eq_refl Esk). rewrite Hlow. cbv. discriminate.
 Qed.
